@@ -142,10 +142,17 @@ func c18(r *core.Report, p *core.Prog, thorough bool) {
 	r.Check(fromOK && strings.HasSuffix(describe(t.To), ".ClientID"), "C18.amounts", "mint:transfer-parties", p.Pos(t.Site.Pos()), describe(t.From)+" → "+describe(t.To))
 	r.Check(guardDominates(sink, ".ReceivingClientID", token.NEQ, ".ClientID"), "C18.guards", "mint:receiver-is-submitter", p.Pos(t.Site.Pos()), "payload.ReceivingClientID != trans.ClientID must reject")
 	r.Check(guardDominates(sink, ".Amount", token.LSS, ".MinMintAmount"), "C18.guards", "mint:min-amount", p.Pos(t.Site.Pos()), "payload.Amount < gn.MinMintAmount must reject")
-	nc := checkedCallBefore(mint, pkgZCN+".PartitionWZCNMintedNonceAdd", sink)
+	// the nonce insertion: in mint or in a helper of the package whose failure fails mint
+	var nc *Lifted
+	for _, l := range LiftCalls(mint, core.NameIs(pkgZCN+".PartitionWZCNMintedNonceAdd"), 1) {
+		l := l
+		if l.Block().Dominates(sink.Block()) && (l.Block() != sink.Block() || core.Reaches(l.Site, sink)) && l.ErrFails() {
+			nc = &l
+		}
+	}
 	r.Check(nc != nil, "C18.guards", "mint:nonce-unique", p.Pos(t.Site.Pos()), "the mint nonce must be inserted (duplicate-rejecting) before the transfer and a failure must abort")
 	if nc != nil {
-		r.Check(strings.HasSuffix(describe(nc.Call.Args[1]), ".Nonce"), "C18.guards", "mint:nonce-arg", p.Pos(nc.Pos()), "inserts "+describe(nc.Call.Args[1]))
+		r.Check(strings.HasSuffix(describe(nc.Arg(1)), ".Nonce"), "C18.guards", "mint:nonce-arg", p.Pos(nc.Pos()), "inserts "+describe(nc.Arg(1)))
 	}
 	vc := checkedCallBefore(mint, "(*"+pkgZCN+".MintPayload).verifySignatures", sink)
 	var uniq ssa.Value
